@@ -601,6 +601,13 @@ func (n *BlockNode) Release() {
 	ReleaseBlockNode(n)
 }
 
+// blockDefinition is one definition of a block together with the template it
+// is written in (template names relative to a template resolve against it)
+type blockDefinition struct {
+	node     *BlockNode
+	template *Template
+}
+
 // Render renders the block node
 func (n *BlockNode) Render(w io.Writer, ctx *RenderContext) error {
 	// The definitions of this block along the extends chain, most derived
@@ -609,10 +616,10 @@ func (n *BlockNode) Render(w io.Writer, ctx *RenderContext) error {
 	// in another block, a loop or a condition) was not seen there: it is the
 	// definition furthest up the chain.
 	chain := ctx.blockChain[n.name]
-	if len(chain) == 0 || chain[len(chain)-1] != n {
-		chain = append(chain[:len(chain):len(chain)], n)
+	if len(chain) == 0 || chain[len(chain)-1].node != n {
+		chain = append(chain[:len(chain):len(chain)], blockDefinition{n, ctx.lastLoadedTemplate})
 		if ctx.blockChain == nil {
-			ctx.blockChain = make(map[string][]*BlockNode)
+			ctx.blockChain = make(map[string][]blockDefinition)
 		}
 		ctx.blockChain[n.name] = chain
 	}
@@ -623,16 +630,24 @@ func (n *BlockNode) Render(w io.Writer, ctx *RenderContext) error {
 
 // renderBlockDefinition renders the definition at the given position of a
 // block's chain and keeps track of that position for the parent() function
-func renderBlockDefinition(w io.Writer, ctx *RenderContext, chain []*BlockNode, level int) error {
+func renderBlockDefinition(w io.Writer, ctx *RenderContext, chain []blockDefinition, level int) error {
 	previousBlock, previousLevel := ctx.currentBlock, ctx.blockLevel
-	ctx.currentBlock, ctx.blockLevel = chain[level], level
+	ctx.currentBlock, ctx.blockLevel = chain[level].node, level
+
+	// While the definition renders, relative template names resolve against
+	// the template it is written in, not against the layout it is placed in
+	previousTemplate := ctx.lastLoadedTemplate
+	if chain[level].template != nil {
+		ctx.lastLoadedTemplate = chain[level].template
+	}
 
 	// Restore the enclosing block on every path, also when a node fails
 	defer func() {
 		ctx.currentBlock, ctx.blockLevel = previousBlock, previousLevel
+		ctx.lastLoadedTemplate = previousTemplate
 	}()
 
-	for _, node := range chain[level].body {
+	for _, node := range chain[level].node.body {
 		if err := node.Render(w, ctx); err != nil {
 			return err
 		}
@@ -729,7 +744,7 @@ func (n *ExtendsNode) Render(w io.Writer, ctx *RenderContext) error {
 	// Hand the block definitions collected so far (from the most derived
 	// template down to this one) over to the parent, which appends its own
 	if len(ctx.blockChain) > 0 {
-		parentCtx.blockChain = make(map[string][]*BlockNode, len(ctx.blockChain))
+		parentCtx.blockChain = make(map[string][]blockDefinition, len(ctx.blockChain))
 		for name, chain := range ctx.blockChain {
 			parentCtx.blockChain[name] = chain[:len(chain):len(chain)]
 		}
@@ -1484,9 +1499,9 @@ func (n *RootNode) Render(w io.Writer, ctx *RenderContext) error {
 	for _, child := range n.children {
 		if block, ok := child.(*BlockNode); ok {
 			if ctx.blockChain == nil {
-				ctx.blockChain = make(map[string][]*BlockNode)
+				ctx.blockChain = make(map[string][]blockDefinition)
 			}
-			ctx.blockChain[block.name] = append(ctx.blockChain[block.name], block)
+			ctx.blockChain[block.name] = append(ctx.blockChain[block.name], blockDefinition{block, ctx.lastLoadedTemplate})
 		} else if ext, ok := child.(*ExtendsNode); ok {
 			// If this is an extends node, record it for later
 			extendsNode = ext
